@@ -5,6 +5,7 @@ for d in seeded/*/; do
   id=$(basename $d); prop=${id%-*}
   if [ -n "$1" ] && ! echo "$@" | grep -qw "$prop"; then continue; fi
   if ! grep -q "\"property_id\": \"$prop\"" MANIFEST.json; then echo "$id not-claimed"; continue; fi
+  if grep -q '"status": "obsolete' $d/meta.json 2>/dev/null; then echo "$id obsolete (see meta.json)"; continue; fi
   out=$(VERIF_FAST_UNKNOWN=1 tools/mut.sh $d/patch.diff $prop 2>&1)
   v=$(echo "$out" | grep -c "^VIOLATION")
   ded=$(echo "$out" | grep "^VIOLATION" | grep -vc "bounded\.")
